@@ -506,6 +506,7 @@ fn interface_def<'a>(input: &mut &'a [u8]) -> ModalResult<Interface<'a>, InputEr
             Error(Error<'a>),
         }
 
+        let checkpoint = *input;
         let result = alt((
             type_def.map(ParsedMember::Custom),
             method_def.map(ParsedMember::Method),
@@ -517,7 +518,12 @@ fn interface_def<'a>(input: &mut &'a [u8]) -> ModalResult<Interface<'a>, InputEr
             Ok(ParsedMember::Custom(custom_type)) => custom_types.push(custom_type),
             Ok(ParsedMember::Method(method)) => methods.push(method),
             Ok(ParsedMember::Error(error)) => errors.push(error),
-            Err(_) => break,
+            Err(_) => {
+                // Not a member: leave what is there for the caller to report, instead of the
+                // part a failed alternative happened to consume.
+                *input = checkpoint;
+                break;
+            }
         }
     }
 
